@@ -597,6 +597,15 @@ pub fn run_programs(
     accept: &[&str],
     report: &mut Report,
 ) {
+    // Floor that does not depend on the machine's speed: every program is explored at
+    // bound 0 to completion (no time cap) before the budgeted passes start.
+    run_programs_at(programs.clone(), 0, horizon, 1.0e9, judge, on_decision.clone(), accept, report);
+    if !report.violations.is_empty() {
+        return;
+    }
+    if bound == 0 {
+        return;
+    }
     if bound >= 2 {
         let t = Deadline::new(budget_s);
         run_programs_at(programs.clone(), bound - 1, horizon, budget_s * 0.4, judge, on_decision.clone(), accept, report);
@@ -708,7 +717,7 @@ pub fn run_programs_at(
         );
     }
     report.add("foreign_violations_seen", foreign);
-    if n as u64 > completed_programs && completed_programs == 0 && bound <= 1 {
-        report.machinery("no program was explored to its deviation bound within the time cap");
+    if n as u64 > completed_programs && bound == 0 {
+        report.machinery(format!("{} program(s) could not be explored to completion at bound 0", n as u64 - completed_programs));
     }
 }
